@@ -19,6 +19,8 @@ pub struct ReqCtx {
     pub open_ts: u64,
     pub open_count: u64,
     pub seq: u64,
+    /// account nonce of signer #0 (who has the next nonce parked in the fixture's pool)
+    pub signer_nonce: u64,
 }
 
 pub const RUNTIME_STORE: &str = "0x600a600c600039600a6000f3600160005401600055"; // increments slot 0 on every call
@@ -60,7 +62,8 @@ pub fn well_typed(method: &str, c: &ReqCtx) -> Value {
             blockf(payload(p))
         }
         "brc20_transact" => {
-            let raw = sign_legacy(3, Some(crate::driver::chain_id()), c.seq % 3, TxKind::Create, hex::decode(&RUNTIME_STORE[2..]).unwrap());
+            // signer #0 at its account nonce: executes and drains the successor parked by the fixture
+            let raw = sign_legacy(0, Some(crate::driver::chain_id()), c.signer_nonce, TxKind::Create, hex::decode(&RUNTIME_STORE[2..]).unwrap());
             let mut p = serde_json::Map::new();
             p.insert("raw_tx_data".into(), json!(format!("0x{}", hex::encode(raw))));
             blockf(payload(p))
@@ -126,7 +129,7 @@ impl Fixture {
         let contract = r.ok().and_then(|v| v["contractAddress"].as_str().map(String::from)).unwrap_or_else(|| addr_hex(crate::evm::eoa(0)));
         let tx_hash = r.ok().and_then(|v| v["transactionHash"].as_str().map(String::from)).unwrap_or_else(|| h1.clone());
         inst.call("brc20_deposit", json!({"to_pkscript": PKSCRIPTS[0], "ticker": "ordi", "amount": "0x64", "timestamp": 2, "hash": h1, "tx_idx": 1, "inscription_id": "fixturedepositi0"}));
-        let raw = sign_legacy(0, Some(crate::driver::chain_id()), 2, TxKind::Create, vec![0x00]);
+        let raw = sign_legacy(0, Some(crate::driver::chain_id()), 1, TxKind::Create, vec![0x00]);
         inst.call(
             "brc20_transact",
             json!({"raw_tx_data": format!("0x{}", hex::encode(raw)), "timestamp": 2, "hash": h1, "tx_idx": 2, "inscription_id": "fixtureparkedi0", "inscription_byte_len": 2500, "op_return_tx_id": h1}),
@@ -136,7 +139,7 @@ impl Fixture {
         inst.call("brc20_commitToDatabase", json!([]));
         let mut f = Fixture {
             inst,
-            ctx: ReqCtx { contract, contract_insc: insc, tx_hash, block_hash: h1, pkscript: PKSCRIPTS[0].to_string(), height: 3, open_hash: String::new(), open_ts: 0, open_count: 0, seq: 0 },
+            ctx: ReqCtx { contract, contract_insc: insc, tx_hash, block_hash: h1, pkscript: PKSCRIPTS[0].to_string(), height: 3, open_hash: String::new(), open_ts: 0, open_count: 0, seq: 0, signer_nonce: 0 },
         };
         f.refresh(false);
         f
@@ -147,6 +150,7 @@ impl Fixture {
         self.ctx.seq += 1;
         self.inst.call("brc20_clearCaches", json!([]));
         self.ctx.height = self.inst.call("eth_blockNumber", json!([])).ok().and_then(parse_u64).unwrap_or(0);
+        self.ctx.signer_nonce = self.inst.call("eth_getTransactionCount", json!([addr_hex(signer_addr(0)), "latest"])).ok().and_then(parse_u64).unwrap_or(0);
         self.ctx.open_hash = b256_hex(keccak256(format!("rpcgen-open{}", self.ctx.seq)));
         self.ctx.open_ts = 50 + self.ctx.seq;
         self.ctx.open_count = 0;
